@@ -283,6 +283,8 @@ def check_ring(pid, tier, t0):
     else:
         scs, stats = ring_scenarios(tier, 'plain', lambda t, r: not FAULTY(t), wide=True)
         scs.append(dict(scen.DEFAULT_ITERS))
+        for n in (0, 1, 2, 3, 4):
+            scs += scen.clone_scripts(n)
         u = run_unit('ring-nofault-%s' % tier, scs)
     rs = random_scenarios(tier, fault_prop)
     ur = run_unit('rand-%s-%s-%d' % ('fault' if fault_prop else 'nofault', tier, seed()), rs)
@@ -455,6 +457,8 @@ def check_c18(tier, t0):
     scs, stats = ring_scenarios(tier, 'plain', lambda t, r: not FAULTY(t), wide=True)
     sets.append(('ring-nofault-%s' % tier, scs))
     scs.append(dict(scen.DEFAULT_ITERS))
+    for n in (0, 1, 2, 3, 4):
+        scs += scen.clone_scripts(n)
     scs2, stats2 = ring_scenarios(tier, 'plain', lambda t, r: FAULTY(t))
     sets.append(('ring-fault-%s' % tier, scs2))
     top = 2 if tier == 'quick' else 3
